@@ -34,7 +34,8 @@
 //! 3. the cached verdict equals the uncached verdict of the very same call (`cross_check`);
 //! 4. a cache of a different circuit ⇒ `Err` or a verifying output, never a panic or an output
 //!    that fails verification;
-//! 5. outputs are fed to the following step.
+//! 5. outputs are fed to the following step;
+//! 6. the cross output carries the ALU AIR variant the parameters ask for.
 //!
 //! `HidingFriPcs::get_quotient_ldes` (p3-fri 0.6.3) holds its spin lock while it runs a parallel
 //! DFT and `prove_batch` calls it from a parallel iterator over the instances: with more than
@@ -1397,6 +1398,23 @@ macro_rules! pair_b {
                 };
                 let kept = self.judge("cross", &kind, valid, res, verdict, &stmt, ctx);
                 self.o.cross_judged += 1;
+                if let Some(out) = &kept {
+                    // the layer is proven with the AIR variant the parameters ask for (every slot
+                    // of a history was prepared with the same parameters)
+                    let want_opt = matches!(params.constraint_profile, ConstraintProfile::RecursionOptimized);
+                    let got_opt = out.0.alu_variant == p3_circuit_prover::AirVariant::Optimized;
+                    self.o.classes.push(format!("alu-variant:{}", if got_opt { "optimized" } else { "baseline" }));
+                    if want_opt != got_opt {
+                        self.violation(
+                            format!("C17/cross/{PAIR}/cross/constraint-profile-not-honoured"),
+                            format!(
+                                "{stmt}: constraint profile {:?} requested, the output's alu_variant is {:?}",
+                                params.constraint_profile, out.0.alu_variant
+                            ),
+                            ctx,
+                        );
+                    }
+                }
 
                 if fresh {
                     if slot.is_some() {
